@@ -22,7 +22,7 @@
               2 JSONSerializer raw     cfg = L [A limit]                         same
               3 struct serializers     cfg = L [A size]                          tabs = ans table (step 0 unpack, 1 from_tuple)
               4 Base64EncoderSerializer cfg = L [B sep; A limit; A inner]         tabs = L [ans table of b64decode+checksum; inner ans table]
-              5 PickleSerializer       cfg = L []                                tabs = ans table (step 0 load; ABad = extra data)
+              5 PickleSerializer       cfg = L []                                tabs = loader table of Unpickler(BytesIO(data)).load()
               6 compressors            cfg = L [A which(0 zlib,1 bz2); A inner]  tabs = L [decompressor table; inner ans table]
               7 file based             cfg = L [A limit; L expected]             tabs = loader table
          inner = 1|2 JSON, 5 pickle, 9 bytes pass-through
@@ -105,12 +105,7 @@ Definition mk_decompress (d : sx) : option (dobj -> bytes -> (dobj * bytes) + Z)
   end.
 
 (* ---- the protocol layer: which classes leaving the serializer's generator become a StreamProtocolParseError ---- *)
-Definition through_try (hs : list site) (k : Z) : Z :=
-  match List.find (fun s => memZ k (fst s)) hs with
-  | Some s => snd s
-  | None => k
-  end.
-Definition declared_by (hs : list site) : list Z :=
+Definition declared_by (hs : trysite) : list Z :=
   filter (fun k => Z.eqb (through_try hs k) c_StreamProtocolParseError) exception_codes.
 Definition stream_declared : list Z := declared_by stream_protocol.
 Definition bstream_declared : list Z := declared_by bstream_protocol.
@@ -195,9 +190,16 @@ Definition family (fam : Z) (cfg tabs : sx) : option fam_model :=
       | _ => None
       end
   | 5%Z, L [] =>
-      match mk_ans tabs with
-      | Some tab => Some {| fm_oneshot := fun d => handle c_DeserializeError pickle_oneshot (tab d);
-                            fm_copy := None; fm_buf := None |}
+      match mk_loader tabs with
+      | Some load =>
+          let st := nth 0 pickle_oneshot [] in
+          (* one try statement around Unpickler.load(): EOFError is just one more class for it *)
+          Some {| fm_oneshot := fun d => match load d with
+                                         | LEof _ => ORaise (through_try st c_EOFError)
+                                         | LRaise k _ => ORaise (through_try st k)
+                                         | LDone p pos => match skipn pos d with [] => OOk p | _ => ORaise c_DeserializeError end
+                                         end;
+                  fm_copy := None; fm_buf := None |}
       | None => None
       end
   | 6%Z, L [A which; A ifam] =>
@@ -210,7 +212,7 @@ Definition family (fam : Z) (cfg tabs : sx) : option fam_model :=
               let gen (declared : list Z) :=
                 cz_framer dobj dnew dd deof dunused
                   (fun k => memZ k expected && memZ cz_incr_raised declared) inner
-                  (fun k => memZ (through cz_incr_inner k) declared) in
+                  (fun k => memZ (through_try cz_incr_inner k) declared) in
               Some {| fm_oneshot := cz_deserialize dobj dnew dd deof dunused (fun k => memZ k expected)
                                       cz_oneshot_raised c_DeserializeError inner;
                       fm_copy := Some (wrap_generic (gen stream_declared));
